@@ -26,6 +26,10 @@ func runC18(c *engine.Ctx, tier string) {
 	}
 	// the tree is built from the tokenizer's elements only: a key value may contain '/'
 	oneTokenizerIn(c, "C18.4", []string{pkgTreeV2, pkgTreeV3}, 2)
+	// a leaf of the tree is the stored value read through the accessor of its own kind (a signed value read as
+	// unsigned changes the document, and as a key leaf splits the list entry)
+	leafWritten(c, "C18.5/v2", pkgTreeV2)
+	leafWritten(c, "C18.5/v3", pkgTreeV3)
 }
 
 func listEntryFacts(c *engine.Ctx, id, rel string) {
